@@ -7,7 +7,7 @@ use crate::ff::Fp31;
 use crate::verif_kani::common::rawwake::{waker, woken};
 use crate::verif_kani::common::*;
 
-const C: usize = 4; // capacity of the waker ring in these harnesses
+const C: usize = 2; // capacity of the waker ring in these harnesses
 
 pub(crate) struct Chunks {
     chunks: [&'static [u8]; 2],
@@ -85,7 +85,7 @@ harness! {
     fn x14_receiver_poll_next_step() {
         // one poll for the next record, data either in the spare buffer or in the next chunk(s)
         let data: &'static [u8; 2] = Box::leak(Box::new(kani::any()));
-        let next: usize = if kani::any() { 0 } else { 7 };
+        let next: usize = 0;
         let in_spare: bool = kani::any();
         let empty_first: bool = kani::any();
         let mut st = if in_spare {
